@@ -1850,6 +1850,10 @@ class FuncEmitter:
         a = i.a
         if op in BIN_OPS:
             e, ub = em.binop(op, a[0], a[1], i.t, i.flags, self)
+            if op in ('udiv', 'urem', 'sdiv', 'srem') and not em.opts.ub and ub:
+                # a zero divisor traps (SIGFPE) whatever the optimisation level: asserted in every unit, not only in the UB-flavoured ones
+                # (LLVM does not speculate divisions whose divisor may be zero, so -O1 IR divides only where the source does)
+                self.body.append('__CPROVER_assert(%s, "division by zero (process dies with SIGFPE instead of failing by exception) in %s");' % (ub[0], self.f.name))
             self.ubassert(ub, op + ' ' + ' '.join(sorted(i.flags)))
             B.append('%s = %s;' % (self.lv(i.res), e))
         elif op == 'icmp':
